@@ -28,10 +28,10 @@ if [ "$applied" != FAILED ]; then
     case "$pkg" in xixi_kv|xixi_kv_test) dir=.;; *) dir=$(echo "$pkg" | sed 's/_test$//');; esac
     cp "$DEMO" "$WT/$dir/zz_seed_demo_test.go"
     names=$(grep -o '^func Test[A-Za-z0-9_]*' "$DEMO" | sed 's/func //' | paste -sd'|')
-    if go test -vet=off -count=1 -run "^($names)\$" ./$dir >/tmp/vs-with-$PID-$AB.log 2>&1; then with=PASS; else with=FAIL; fi
+    if go test ${SEED_RACE:+-race} -vet=off -count=1 -run "^($names)\$" ./$dir >/tmp/vs-with-$PID-$AB.log 2>&1; then with=PASS; else with=FAIL; fi
     # undo the change only (the demonstration is untracked and stays); no git stash: the stash is shared by all worktrees
     git checkout -q -- .
-    if go test -vet=off -count=1 -run "^($names)\$" ./$dir >/tmp/vs-without-$PID-$AB.log 2>&1; then without=PASS; else without=FAIL; fi
+    if go test ${SEED_RACE:+-race} -vet=off -count=1 -run "^($names)\$" ./$dir >/tmp/vs-without-$PID-$AB.log 2>&1; then without=PASS; else without=FAIL; fi
   fi
 fi
 confirmed=false
@@ -40,7 +40,7 @@ python3 - "$OUT/meta.json" <<PY
 import json,sys
 json.dump({"seed":"$PID-$AB","property":"$PID","repo_head":"$HEADC","patch_applied":"$applied","build":"$build","suite_with_change":"$suite",
  "demo_tests":"$names","demo_with_change":"$with","demo_without_change":"$without","confirmed":$( [ $confirmed = true ] && echo True || echo False ),
- "ran":["git apply patch.diff (scratch worktree of /repo HEAD)","go build ./...","scripts/run_suite.sh (baseline suite, 63 tests)","go test -run demo (with change)","git checkout -- . ; go test -run demo (without change)"]},open(sys.argv[1],'w'),indent=1)
+ "ran":["git apply patch.diff (scratch worktree of /repo HEAD)","go build ./...","scripts/run_suite.sh (baseline suite, 63 tests)","go test ${SEED_RACE:+-race }-run demo (with change)","git checkout -- . ; go test -run demo (without change)"]},open(sys.argv[1],'w'),indent=1)
 PY
 cd /; git -C /repo worktree remove --force "$WT"; rm -rf "$WT"
 echo "$PID-$AB applied=$applied build=$build suite=[$suite] with=$with without=$without confirmed=$confirmed"
